@@ -1,0 +1,55 @@
+//go:build verif
+
+package kernel
+
+import (
+	"github.com/MixinNetwork/mixin/common"
+	"github.com/MixinNetwork/mixin/crypto"
+	"github.com/MixinNetwork/mixin/kernel/internal"
+)
+
+// Verification hooks for property C20 (add-only, compiled only with -tags verif).
+
+// VerifDisableChainLoops keeps SetupNode/BootChain from starting the per-chain goroutines
+// (the switch the package's own tests use), so that a harness can drive one chain
+// transition at a time.
+func VerifDisableChainLoops(disable bool) {
+	internal.ToggleMockRunAggregators(disable)
+}
+
+// VerifStartNewRoundAndPersist calls startNewRoundAndPersist on the chain's current cache
+// round, as the CoSi paths do. started=false with a nil error is the "not yet" outcome.
+func (chain *Chain) VerifStartNewRoundAndPersist(references *common.RoundLink, timestamp uint64, finalized bool) (bool, bool, error) {
+	cache, _ := chain.StateCopy()
+	nc, nf, dummy, err := chain.startNewRoundAndPersist(cache, references, timestamp, finalized)
+	return nc != nil && nf != nil, dummy, err
+}
+
+// VerifValidateNewRound calls validateNewRound on a copy of the current cache round.
+func (chain *Chain) VerifValidateNewRound(references *common.RoundLink, timestamp uint64, finalized bool) (*FinalRound, bool, error) {
+	cache, _ := chain.StateCopy()
+	return chain.validateNewRound(cache, references, timestamp, finalized)
+}
+
+// VerifUpdateEmptyHeadRoundAndPersist calls updateEmptyHeadRoundAndPersist on copies of the
+// current final and cache round, as the CoSi paths do.
+func (chain *Chain) VerifUpdateEmptyHeadRoundAndPersist(references *common.RoundLink, timestamp uint64, strict bool) error {
+	cache, final := chain.StateCopy()
+	return chain.updateEmptyHeadRoundAndPersist(final, cache, references, timestamp, strict)
+}
+
+// VerifAppendCacheSnapshot appends a snapshot to the in-memory cache round only (no
+// topology write): the round-transition functions under test read the cache round from
+// memory.
+func (chain *Chain) VerifAppendCacheSnapshot(s *common.Snapshot) {
+	chain.State.CacheRound.Snapshots = append(chain.State.CacheRound.Snapshots, s)
+}
+
+// VerifRoundLinks returns a copy of the in-memory external links of the chain.
+func (chain *Chain) VerifRoundLinks() map[crypto.Hash]uint64 {
+	m := make(map[crypto.Hash]uint64, len(chain.State.RoundLinks))
+	for k, v := range chain.State.RoundLinks {
+		m[k] = v
+	}
+	return m
+}
